@@ -108,6 +108,28 @@ def build():
     if len(i_reset) != 1 or i_lookup < 0:
         raise GenError("demux_reply: expected exactly one response-timer reset and the ID lookup")
     defs.append(("timer_reset_requires_known_id", "bool", "true" if i_reset[0] > i_lookup else "false"))
+    # keepalive / idle timeout
+    i_opts = dm.find("Self::handle_opts(&opts, status)")
+    if i_opts < 0 or i_opts > i_lookup:
+        raise GenError("demux_reply: the EDNS options are no longer handled before the ID lookup")
+    one(r"if\s+let\s+Some\(opts\)\s*=\s*answer\.opt\(\)\s*\{\s*Self::handle_opts\(&opts,\s*status\);\s*\}", dm, "demux_reply handles the options of every reply")
+    hk = fn_body(st, "handle_keepalive")
+    one(r"^\s*if\s+let\s+Some\(value\)\s*=\s*opt_value\.timeout\(\)\s*\{\s*let\s+value_dur\s*=\s*Duration::from\(value\);\s*status\.idle_timeout\s*=\s*value_dur;\s*\}\s*$", hk,
+        "handle_keepalive replaces the idle timeout only when the option carries one")
+    ho = fn_body(st, "handle_opts")
+    one(r"for\s+option\s+in\s+opts\.opt\(\)\.iter\(\)\.flatten\(\)\s*\{\s*if\s+let\s+AllOptData::TcpKeepalive\(tcpkeepalive\)\s*=\s*option\s*\{\s*Self::handle_keepalive\(tcpkeepalive,\s*status\);\s*\}\s*\}", ho, "handle_opts")
+    ka = strip_comments(read("src/base/opt/keepalive.rs"))
+    m = one(r"impl\s+From<IdleTimeout>\s+for\s+Duration\s*\{\s*fn\s+from\(src:\s*IdleTimeout\)\s*->\s*Self\s*\{\s*Duration::from_millis\(u64::from\(src\.0\)\s*\*\s*" + NUMBER + r"\)\s*\}", ka, "IdleTimeout unit")
+    defs.append(("keepalive_units_ms", "N", "%d%%N" % num(m.group(1))))
+    m = one(r"const\s+IDLE_TIMEOUT:\s*DefMinMax<Duration>\s*=\s*DefMinMax::new\(\s*([^,]+),\s*([^,]+),\s*([^,]+),?\s*\)", st, "stream IDLE_TIMEOUT")
+    if m.group(2).strip() != "Duration::ZERO":
+        raise GenError("IDLE_TIMEOUT minimum is no longer zero")
+    defs.append(("idle_timeout_default_ms", "N", "%d%%N" % dur(m.group(1), "IDLE_TIMEOUT default")))
+    defs.append(("idle_timeout_max_ms", "N", "%d%%N" % dur(m.group(3), "IDLE_TIMEOUT max")))
+    runb = fn_body(st, "run", after="impl<Stream, Req, ReqMulti> Transport<Stream, Req, ReqMulti>\nwhere")
+    m = one(r"ConnState::Idle\(instant\)\s*=>\s*\{\s*let\s+elapsed\s*=\s*instant\.elapsed\(\);\s*if\s+elapsed\s*" + OP + r"\s*status\.idle_timeout\s*\{\s*status\.state\s*=\s*ConnState::IdleTimeout;\s*break;\s*\}\s*Some\(status\.idle_timeout\s*-\s*elapsed\)", runb, "Transport::run idle test")
+    defs.append(("run_idle_fires", "N -> N -> bool", "fun elapsed idle => " + cmp_fn(m.group(1), "elapsed", "idle")))
+    one(r"Some\(self\.config\.response_timeout\s*-\s*elapsed\)", runb, "Transport::run sleeps for the remaining response time")
     er = fn_body(st, "error")
     one(r"for\s+\(mut\s+req,\s*_\)\s+in\s+query_vec\.drain\(\)\s*\{\s*_\s*=\s*req\.sender\.send\(Err\(error\.clone\(\)\)\)\.await;\s*\}", er,
         "Transport::error drains every waiter")
@@ -244,6 +266,51 @@ def build():
     defs.append(("dgram_timeout_default_ms", "N", "%d%%N" % dur(m.group(1), "READ_TIMEOUT default")))
     defs.append(("dgram_timeout_min_ms", "N", "%d%%N" % dur(m.group(2), "READ_TIMEOUT min")))
     defs.append(("dgram_timeout_max_ms", "N", "%d%%N" % dur(m.group(3), "READ_TIMEOUT max")))
+
+    # ---- multi_stream: connection reuse, forced reconnect, back-off after a failed connect
+    ms = strip_comments(read("src/net/client/multi_stream.rs"))
+    mrun = fn_body(ms, "run", after="impl<Remote, Req: ComposeRequest> Transport<Remote, Req>")
+    m = one(r"if\s+let\s+SingleConnState3::Err\(error_state\)\s*=\s*&self\.conn_state\s*\{\s*if\s+error_state\.timer\.elapsed\(\)\s*" + OP + r"\s*error_state\.timeout\s*\{\s*let\s+resp\s*=\s*ChanResp::Err\(error_state\.error\.clone\(\)\);\s*_\s*=\s*chan\.send\(resp\);\s*continue;\s*\}\s*\}", mrun,
+            "multi_stream back-off test")
+    defs.append(("ms_backoff_active", "N -> N -> bool", "fun elapsed timeout => " + cmp_fn(m.group(1), "elapsed", "timeout")))
+    m = one(r"if\s+let\s+Some\(id\)\s*=\s*opt_id\s*\{\s*if\s+id\s*" + OP + r"\s*self\.conn_id\s*\{\s*self\.conn_id\s*\+=\s*" + NUMBER + r";\s*self\.conn_state\s*=\s*SingleConnState3::None;\s*\}\s*\}", mrun,
+            "multi_stream forced reconnect")
+    defs.append(("ms_stale", "N -> N -> bool", "fun id conn_id => " + cmp_fn(m.group(1), "id", "conn_id")))
+    defs.append(("ms_id_inc", "N", "%d%%N" % num(m.group(2))))
+    one(r"if\s+let\s+SingleConnState3::Some\(conn\)\s*=\s*&self\.conn_state\s*\{\s*let\s+resp\s*=\s*ChanResp::Ok\(ChanRespOk\s*\{\s*id:\s*self\.conn_id,\s*conn:\s*conn\.clone\(\),\s*\}\);\s*_\s*=\s*chan\.send\(resp\);\s*\}\s*else\s*\{\s*opt_chan\s*=\s*Some\(chan\);\s*stream_fut\s*=\s*Box::pin\(self\.stream\.connect\(\)\);\s*do_stream\s*=\s*true;\s*\}",
+        mrun, "multi_stream reuse or connect")
+    one(r"SingleConnState3::None\s*=>\s*self\.conn_state\s*=\s*SingleConnState3::Err\(ErrorState\s*\{\s*error:\s*error\.clone\(\),\s*retries:\s*0,\s*timer:\s*Instant::now\(\),\s*timeout:\s*retry_time\(0\),\s*\}\)", mrun,
+        "multi_stream first connect failure")
+    one(r"SingleConnState3::Err\(error_state\)\s*=>\s*\{\s*self\.conn_state\s*=\s*SingleConnState3::Err\(ErrorState\s*\{\s*error:\s*error_state\.error\.clone\(\),\s*retries:\s*error_state\.retries\s*\+\s*1,\s*timer:\s*Instant::now\(\),\s*timeout:\s*retry_time\(\s*error_state\.retries\s*\+\s*1\),\s*\}\);\s*\}", mrun,
+        "multi_stream repeated connect failure")
+    one(r"SingleConnState3::Some\(_\)\s*=>\s*panic!\(\"Illegal Some state\"\)", mrun, "multi_stream Some state on connect failure")
+    rt_ = fn_body(ms, "retry_time")
+    m = one(r"let\s+to_secs\s*=\s*if\s+retries\s*" + OP + r"\s*" + NUMBER + r"\s*\{\s*" + NUMBER + r"\s*\}\s*else\s*\{\s*" + NUMBER + r"\s*<<\s*retries\s*\};\s*let\s+to_usecs\s*=\s*to_secs\s*\*\s*" + NUMBER + r";", rt_, "retry_time")
+    if num(m.group(5)) != 1000000:
+        raise GenError("retry_time no longer computes in microseconds")
+    defs.append(("ms_retry_cap_ms", "N -> N", "fun retries => (if %s then %d * 1000 else N.shiftl %d retries * 1000)%%N" % (cmp_fn(m.group(1), "retries", "%d" % num(m.group(2))), num(m.group(3)), num(m.group(4)))))
+    one(r"let\s+rnd:\s*f64\s*=\s*random\(\);\s*let\s+to_usecs\s*=\s*to_usecs\s+as\s+f64\s*\*\s*rnd;", rt_, "retry_time random factor in [0,1)")
+
+    # ---- redundant: which results are returned at once, which are deferred
+    rd = strip_comments(read("src/net/client/redundant.rs"))
+    gr_ = fn_body(rd, "get_response", after="impl<Req: Clone + Send + Sync + 'static> Query<Req>")
+    if len(re.findall(r"if\s+self\.config\.defer_transport_error\s*\{\s*if\s+self\.deferred_transport_error\.is_none\(\)\s*\{\s*self\.deferred_transport_error\s*=\s*Some\(err\.clone\(\)\);\s*\}", gr_)) != 2:
+        raise GenError("redundant: deferring of transport errors changed")
+    if len(re.findall(r"if\s+skip\(msg,\s*&self\.config\)\s*\{\s*if\s+self\.deferred_reply\.is_none\(\)\s*\{\s*self\.deferred_reply\s*=\s*Some\(msg\.clone\(\)\);\s*\}", gr_)) != 2:
+        raise GenError("redundant: deferring of replies changed")
+    if len(re.findall(r"if\s+ind\s*\+\s*1\s*<\s*self\.conn_rt\.len\(\)\s*\{\s*QueryState::Probe\(ind\s*\+\s*1\)\s*\}\s*else\s*\{\s*QueryState::Wait\s*\}", gr_)) != 3:
+        raise GenError("redundant: advancing to the next upstream changed")
+    if len(re.findall(r"if\s+res\.0\s*==\s*ind\s*\{", gr_)) != 2:
+        raise GenError("redundant: current-upstream test changed")
+    i1 = gr_.find("if self.deferred_reply.is_some()"); i2 = gr_.find("if self.deferred_transport_error.is_some()")
+    if i1 < 0 or i2 < 0:
+        raise GenError("redundant: final choice between deferred reply and deferred error not found")
+    defs.append(("red_prefers_reply", "bool", "true" if i1 < i2 else "false"))
+    one(r"if\s+self\.conn_rt\.is_empty\(\)\s*\{\s*return\s+Err\(Error::NoTransportAvailable\);\s*\}\s*self\.state\s*=\s*QueryState::Probe\(0\);", gr_, "redundant starts with the first upstream")
+    sk = fn_body(rd, "skip")
+    one(r"if\s+!config\.defer_refused\s*&&\s*!config\.defer_servfail\s*\{\s*return\s+false;\s*\}", sk, "redundant skip short cut")
+    one(r"if\s+let\s+OptRcode::REFUSED\s*=\s*opt_rcode\s*\{\s*if\s+config\.defer_refused\s*\{\s*return\s+true;\s*\}\s*\}\s*if\s+let\s+OptRcode::SERVFAIL\s*=\s*opt_rcode\s*\{\s*if\s+config\.defer_servfail\s*\{\s*return\s+true;\s*\}\s*\}\s*false", sk, "redundant skip")
+    defs.append(("red_skip", "bool -> bool -> N -> bool", "fun defer_refused defer_servfail rcode => orb (andb defer_refused (rcode =? 5)%N) (andb defer_servfail (rcode =? 2)%N)"))
 
     # ---- dgram_stream TC fallback
     ds = strip_comments(read("src/net/client/dgram_stream.rs"))
